@@ -139,5 +139,139 @@ def LS (t : IntTy) (k g1 v cg : Nat) (cache : List Nat) (lg : List Value) (pos :
             ("version", .int .u16 v), ("version", refA16 "version"), ("self", readerValue cg cache)],
     log := lg, pos := pos }
 
+/-- the context of the statements: the generated tables, the dictionary, the raw input stream -/
+abbrev sctx (nowNs : Int) (sizes : List (String × Nat)) (inp : Nat → Nat) : Ctx :=
+  Code.ctxWith nowNs DictShm.ext sizes (rawInp inp)
+
+set_option maxRecDepth 8000 in
+/-- the loop condition `retries > 0` on a positive budget -/
+theorem cond_succ (inp : Nat → Nat) (nowNs : Int) (sizes : List (String × Nat)) (c : Expr) (b : List Stmt)
+    (hcb : findWhile Code.fn_ShmReader__snapshot_stmts = some (c, b))
+    (t : IntTy) (ht : t = .infer ∨ t = .i32) (k g1 v cg : Nat) (cache : List Nat) (lg : List Value) (pos : Nat)
+    (N : Nat) (hN : 30 ≤ N) :
+    eval N (sctx nowNs sizes inp) sfr c (LS t (k + 1) g1 v cg cache lg pos)
+    = .val (.bool true) (LS t (k + 1) g1 v cg cache lg pos) := by
+  simp [rs_eval] at hcb
+  obtain ⟨rfl, rfl⟩ := hcb
+  obtain ⟨M, rfl⟩ := Nat.exists_eq_add_of_le' hN
+  have h : (0 : Int) < (k : Int) + 1 := by omega
+  rcases ht with rfl | rfl <;> simp [rs_eval, LS, sfr, h]
+
+set_option maxRecDepth 8000 in
+/-- … and on an exhausted one -/
+theorem cond_zero (inp : Nat → Nat) (nowNs : Int) (sizes : List (String × Nat)) (c : Expr) (b : List Stmt)
+    (hcb : findWhile Code.fn_ShmReader__snapshot_stmts = some (c, b))
+    (t : IntTy) (ht : t = .infer ∨ t = .i32) (g1 v cg : Nat) (cache : List Nat) (lg : List Value) (pos : Nat)
+    (N : Nat) (hN : 30 ≤ N) :
+    eval N (sctx nowNs sizes inp) sfr c (LS t 0 g1 v cg cache lg pos)
+    = .val (.bool false) (LS t 0 g1 v cg cache lg pos) := by
+  simp [rs_eval] at hcb
+  obtain ⟨rfl, rfl⟩ := hcb
+  obtain ⟨M, rfl⟩ := Nat.exists_eq_add_of_le' hN
+  rcases ht with rfl | rfl <;> simp [rs_eval, LS, sfr]
+
+set_option maxRecDepth 8000 in
+set_option maxHeartbeats 2000000 in
+/-- one run of the loop body: the volatile copy, the fence, the re-check; then either the snapshot is
+    accepted (`return Ok(..)` with the cache updated) or the loop goes on with one retry less and, if the
+    generation seen is even, with that generation as the one to confirm -/
+theorem iter_eq (inp : Nat → Nat) (nowNs : Int) (sizes : List (String × Nat)) (c : Expr) (b : List Stmt)
+    (hcb : findWhile Code.fn_ShmReader__snapshot_stmts = some (c, b))
+    (t : IntTy) (ht : t = .infer ∨ t = .i32) (k g1 v cg : Nat) (cache : List Nat) (lg : List Value) (pos : Nat)
+    (hk : k + 1 ≤ 2147483647) (hpos : AttemptPos pos) (N : Nat) (hN : 30 ≤ N) (next : St → Res) :
+    ((evalBlock N (sctx nowNs sizes inp) sfr b (LS t (k + 1) g1 v cg cache lg pos)).popTo
+        (LS t (k + 1) g1 v cg cache lg pos).env.length).loopNext next
+    = if g1 = typedInp inp (pos + SL.N) then
+        .ret (.enumv "Ok" [wordsValue (SL.attemptCells (typedInp inp) pos)])
+          (LS t (k + 1) g1 v g1 (SL.attemptCells (typedInp inp) pos)
+            (lg ++ (SL.attemptAccs {} (typedInp inp) pos).map accValue) (pos + SL.N + 1))
+      else
+        next (LS .i32 k (if typedInp inp (pos + SL.N) % 2 = 0 then typedInp inp (pos + SL.N) else g1) v cg cache
+          (lg ++ (SL.attemptAccs {} (typedInp inp) pos).map accValue) (pos + SL.N + 1)) := by
+  simp [rs_eval] at hcb
+  obtain ⟨rfl, rfl⟩ := hcb
+  obtain ⟨M, rfl⟩ := Nat.exists_eq_add_of_le' hN
+  have hlo : IntTy.lo .i32 ≤ (k : Int) := by show (-2147483648 : Int) ≤ k; omega
+  have hhi : (k : Int) ≤ IntTy.hi .i32 := by show (k : Int) ≤ 2147483647; omega
+  have hchk : ∀ st, chkInt .i32 (k : Int) st = .val (.int .i32 k) st :=
+    fun st => chkInt_ok .i32 k st (by decide) hlo hhi
+  rcases ht with rfl | rfl <;>
+  · simp [rs_eval, rs_code, LS, sfr, rawInp, readerValue, wordsValue, readWords_attempt inp hpos, typedInp_gen2 inp hpos,
+      wordLoads_attempt, hchk, SL.attemptAccs, accValue, locValue, locTy, ordValue]
+    split_ifs <;> simp_all <;> omega
+
+/-- the retry loop of the CODE in closed form (same recursion as `SL.readerLoop`, but with the whole
+    interpreter state: needed because the state is what the rest of the function continues with) -/
+def loopOut (tinp : Nat → Nat) (v cg : Nat) (cache : List Nat) : IntTy → Nat → Nat → Nat → List Value → Res
+  | t, 0, pos, g1, lg => .val .unit (LS t 0 g1 v cg cache lg pos)
+  | t, k + 1, pos, g1, lg =>
+    if g1 = tinp (pos + SL.N) then
+      .ret (.enumv "Ok" [wordsValue (SL.attemptCells tinp pos)])
+        (LS t (k + 1) g1 v g1 (SL.attemptCells tinp pos) (lg ++ (SL.attemptAccs {} tinp pos).map accValue)
+          (pos + SL.N + 1))
+    else
+      loopOut tinp v cg cache .i32 k (pos + SL.N + 1) (if tinp (pos + SL.N) % 2 = 0 then tinp (pos + SL.N) else g1)
+        (lg ++ (SL.attemptAccs {} tinp pos).map accValue)
+
+/-- the loop of `ShmReader::snapshot` with a budget of `k` retries, for every fuel ≥ `k + 31` -/
+theorem loop_eq (inp : Nat → Nat) (nowNs : Int) (sizes : List (String × Nat)) (c : Expr) (b : List Stmt)
+    (hcb : findWhile Code.fn_ShmReader__snapshot_stmts = some (c, b)) (v cg : Nat) (cache : List Nat) :
+    ∀ k, k ≤ 2147483647 → ∀ t, (t = .infer ∨ t = .i32) → ∀ pos, AttemptPos pos → ∀ g1 lg N, k + 31 ≤ N →
+      evalWhile N (sctx nowNs sizes inp) sfr c b (LS t k g1 v cg cache lg pos)
+      = loopOut (typedInp inp) v cg cache t k pos g1 lg := by
+  intro k
+  induction k with
+  | zero =>
+    intro _ t ht pos _ g1 lg N hN
+    obtain ⟨M, rfl⟩ : ∃ M, N = M + 1 := ⟨N - 1, by omega⟩
+    rw [evalWhile_succ, cond_zero inp nowNs sizes c b hcb t ht g1 v cg cache lg pos M (by omega)]
+    simp [loopOut, LS, St.popTo, Res.bind_val]
+  | succ k ih =>
+    intro hk t ht pos hpos g1 lg N hN
+    obtain ⟨M, rfl⟩ : ∃ M, N = M + 1 := ⟨N - 1, by omega⟩
+    rw [evalWhile_succ, cond_succ inp nowNs sizes c b hcb t ht k g1 v cg cache lg pos M (by omega)]
+    simp only [Res.bind_val, if_true]
+    rw [iter_eq inp nowNs sizes c b hcb t ht k g1 v cg cache lg pos hk hpos M (by omega)]
+    rw [loopOut]
+    split
+    · rfl
+    · exact ih (by omega) .i32 (Or.inr rfl) _ hpos.next _ _ M (by omega)
+
+/-- what the rest of `snapshot` needs to know about the outcome of the loop, in terms of the MODEL's
+    `SL.readerLoop`: accepted — a `return Ok(&snapshot_ceb)` with the cache updated; budget used up — the
+    loop ends normally with the cache untouched; in both cases the log grew by the model's accesses -/
+def LoopPost (r : Res) (lg : List Value) (cg : Nat) (cache : List Nat) : List SL.Acc × Option (Nat × List Nat) → Prop
+  | (accs, some (g', cells)) =>
+    ∃ st', r = .ret (.enumv "Ok" [wordsValue cells]) st' ∧ envGet st'.env "self" = some (readerValue g' cells) ∧
+      st'.log = lg ++ accs.map accValue
+  | (accs, none) =>
+    ∃ st', r = .val .unit st' ∧ envGet st'.env "self" = some (readerValue cg cache) ∧ st'.log = lg ++ accs.map accValue
+
+theorem loopOut_spec (tinp : Nat → Nat) (v cg : Nat) (cache : List Nat) :
+    ∀ k t pos g1 lg r, loopOut tinp v cg cache t k pos g1 lg = r →
+      LoopPost r lg cg cache (SL.readerLoop {} tinp k pos g1) := by
+  intro k
+  induction k with
+  | zero =>
+    intro t pos g1 lg r h
+    subst h
+    simp [SL.readerLoop, LoopPost, loopOut, LS, envGet]
+  | succ k ih =>
+    intro t pos g1 lg r h
+    subst h
+    rw [loopOut, SL.readerLoop]
+    simp only
+    split
+    · simp [LoopPost, LS, envGet]
+    · have := ih .i32 (pos + SL.N + 1) (if tinp (pos + SL.N) % 2 = 0 then tinp (pos + SL.N) else g1)
+        (lg ++ (SL.attemptAccs {} tinp pos).map accValue) _ rfl
+      rcases hrl : SL.readerLoop {} tinp k (pos + SL.N + 1) (if tinp (pos + SL.N) % 2 = 0 then tinp (pos + SL.N) else g1)
+        with ⟨accs, _ | ⟨g', cells⟩⟩
+      · rw [hrl] at this
+        obtain ⟨st', h1, h2, h3⟩ := this
+        exact ⟨st', h1, h2, by simp [h3]⟩
+      · rw [hrl] at this
+        obtain ⟨st', h1, h2, h3⟩ := this
+        exact ⟨st', h1, h2, by simp [h3]⟩
 
 end ClockBound.Rs.SeqlockProof
